@@ -55,11 +55,14 @@ IntCases ==
 (* well-formedness couples prefix, base and digit alphabet *)
 IntOK(c) == c.prefix \in Prefixes(c.base) /\ \E g \in Digits(c.base) : g.d = c.int /\ c.text = (IF c.neg THEN "-" ELSE "") \o c.prefix \o g.s
 
-FTokD == {Plain("0"), Plain("1"), Plain("9"), T("15", "1_5"), Plain("000"), Plain("1234567890123456789"), Plain("12345678901234567890"),
-          Plain("18446744073709551617"), Plain("99999999999999999999999999999999999")}
+(* 20-digit coefficients are where a 64-bit accumulator wraps: with and without trailing zeros *)
+FTokD == {Plain("0"), Plain("1"), Plain("2"), Plain("9"), T("15", "1_5"), Plain("000"), Plain("1234567890123456789"), Plain("12345678901234567890"),
+          Plain("18446744073709551617"), Plain("18446744073709551620"), Plain("1844674407370955162"),
+          Plain("99999999999999999999999999999999999")}
 (* 0000000596046447753906251: 1.<that> is just above the midpoint of two float32 values and  *)
 (* rounds to the midpoint itself in float64 (double rounding trap)                            *)
 FracD == {Plain("0"), Plain("5"), T("25", "2_5"), Plain("000001"), Plain("10"), Plain("3333333333333333333333"),
+          Plain("0000000000000000000"), Plain("000000000000000000"),
           T("0000000596046447753906251", "0000000596_046447753906251")}
 ExpD  == {"0", "1", "2", "05", "1_0", "30", "308", "309", "400", "5000"}
 DFloatCases ==
